@@ -5,6 +5,7 @@ package main
 
 import (
 	"go/ast"
+	"sort"
 	"strings"
 )
 
@@ -33,7 +34,9 @@ func init() {
 				case src == "os.Rename(s.snapTmpDirPath, s.snapDirPath)":
 					steps = append(steps, "rename-tmp-to-final")
 				case src == "s.stc.SetDueNext(Incremental)":
-					steps = append(steps, "clear-full-needed")
+					steps = append(steps, "clear-full-needed-unconditionally")
+				case src == "s.stc.ClearFullNeeded(s.fullNeededToken)":
+					steps = append(steps, "clear-captured-requirement")
 				}
 				return true
 			})
@@ -67,5 +70,65 @@ func init() {
 			})
 		}
 		x.DefOptBool("writeGateRefusesIncrementalWhenFullDue", gate, found)
+
+		x.Comment("(*Sink).Close clears the requirement only for a full snapshot that carries a token: the guard of the ClearFullNeeded call")
+		guard := ""
+		if fd := x.Func("snapshot", "Sink", "Close"); fd != nil {
+			ast.Inspect(fd.Body, func(n ast.Node) bool {
+				if is, ok := n.(*ast.IfStmt); ok && len(x.Calls(is.Body, "ClearFullNeeded")) == 1 && is.Init == nil {
+					guard = x.Src(is.Cond)
+					return false
+				}
+				return true
+			})
+		}
+		x.DefString("clearGuard", guard)
+
+		x.Comment("every call of SetDueNext with an argument other than Full, anywhere in the non-test sources (file:function)")
+		var callers []string
+		for _, dir := range []string{"snapshot", "store", "http", "cluster", "cmd/rqlited"} {
+			for fname, f := range x.Pkg(dir) {
+				for _, d := range f.Decls {
+					fd, ok := d.(*ast.FuncDecl)
+					if !ok || fd.Body == nil {
+						continue
+					}
+					for _, c := range x.Calls(fd.Body, "SetDueNext") {
+						if len(c.Args) == 1 {
+							a := x.Src(c.Args[0])
+							if a != "snapshot.Full" && a != "Full" {
+								callers = append(callers, dir+"/"+fname+":"+fd.Name.Name+"("+a+")")
+							}
+						}
+					}
+				}
+			}
+		}
+		sort.Strings(callers)
+		x.DefStrings("setDueNextNonFullCallers", callers)
+
+		x.Comment("Store.ClearFullNeeded and SetDueNext hold fullNeededMu for their whole body; ClearFullNeeded compares the token before removing")
+		lockOK := func(name string) bool {
+			fd := x.Func("snapshot", "Store", name)
+			if fd == nil || len(fd.Body.List) < 2 {
+				return false
+			}
+			return x.Src(fd.Body.List[0]) == "s.fullNeededMu.Lock()" && x.Src(fd.Body.List[1]) == "defer s.fullNeededMu.Unlock()"
+		}
+		cmp := false
+		if fd := x.Func("snapshot", "Store", "ClearFullNeeded"); fd != nil {
+			ast.Inspect(fd.Body, func(n ast.Node) bool {
+				if is, ok := n.(*ast.IfStmt); ok && x.Src(is.Cond) == "string(b) != token" {
+					for _, st := range is.Body.List {
+						if r, ok := st.(*ast.ReturnStmt); ok && len(r.Results) == 1 && x.Src(r.Results[0]) == "nil" {
+							cmp = true
+						}
+					}
+				}
+				return true
+			})
+		}
+		x.DefBool("requirementChangesSerialized", lockOK("SetDueNext") && lockOK("ClearFullNeeded") && lockOK("FullNeededToken"))
+		x.DefBool("clearComparesToken", cmp)
 	})
 }
